@@ -110,6 +110,27 @@ fn bits_of(sp: &AgentSpec) -> String {
 
 struct XCfg { multi: bool, asset: usize, tick: u32, seed: u64, steps: usize, step_size: u64, start_book: u8, toggles: bool, subject: AgentSpec }
 
+/// Seeds of `Xoroshiro128StarStar::seed_from_u64` whose i-th `next_u32` draw (row i) gives `gen::<f32>() == 0.0`
+/// (found by exhaustive search over seeds below 2^29: each such draw has probability 2^-24). With an empty
+/// starting book and probabilities 0 the i-th draw of the first update is the activity test of trader i/2.
+const ZERO_DRAW_SEEDS: [[u64; 4]; 12] = [
+    [153381, 9004614, 18209628, 35558597], [2430464, 2896121, 43443094, 50175338], [10441031, 20188024, 30484391, 33708971],
+    [5675771, 27935284, 28409074, 63157912], [6712099, 6738254, 13569108, 14107358], [19780649, 42738412, 43239221, 66420373],
+    [12699951, 18026787, 29209040, 36070134], [13468973, 19936301, 56193273, 81237425], [7017470, 11715693, 14122087, 22804584],
+    [2161430, 4528298, 8787703, 14001436], [3249365, 18903352, 39036230, 54146523], [20798266, 42098630, 74884198, 86306231],
+];
+
+/// The probability-0 corner on a seed that draws exactly 0.0: a noise agent with all probabilities 0 must stay idle.
+fn corner_xcfg(rng: &mut Xoroshiro128StarStar) -> XCfg {
+    let multi = rng.gen::<f64>() < 0.4;
+    let asset = if multi { rng.gen_range(0..2) } else { 0 };
+    let tick: u32 = rng.gen_range(1..11);
+    let i = rng.gen_range(0..12);
+    let seed = ZERO_DRAW_SEEDS[i][rng.gen_range(0..4)];
+    let f: Vec<String> = vec!["10".into(), "6".into(), tick.to_string(), "0/1".into(), "0/1".into(), "0/1".into(), "3".into(), "0".into(), "1".into()];
+    XCfg { multi, asset, tick, seed, steps: 2, step_size: 10, start_book: 0, toggles: false, subject: AgentSpec { kind: 'N', asset, f } }
+}
+
 fn gen_xcfg(rng: &mut Xoroshiro128StarStar, only: Option<char>) -> XCfg {
     let multi = rng.gen::<f64>() < 0.4;
     let asset = if multi { rng.gen_range(0..2) } else { 0 };
@@ -251,7 +272,8 @@ pub fn agent_exact(seed: u64, n: usize, only: Option<char>) {
     let mut w = std::io::BufWriter::new(stdout.lock());
     for i in 0..n {
         let mut rng = Xoroshiro128StarStar::seed_from_u64(seed.wrapping_mul(0x9E3779B97F4A7C15).wrapping_add(i as u64) ^ 0xFA6E);
-        let cfg = gen_xcfg(&mut rng, only);
+        // one history in eight (noise agents only) is the probability-0 corner on a zero-draw seed
+        let cfg = if i % 8 == 7 && only != Some('M') { corner_xcfg(&mut rng) } else { gen_xcfg(&mut rng, only) };
         let hid = format!("ax{}-{}-{}", cfg.subject.kind, seed, i);
         let r = catch_unwind(AssertUnwindSafe(|| {
             let mut buf: Vec<u8> = Vec::new();
